@@ -34,6 +34,11 @@ def run(tier):
         c.sc, c.profile, c.mode, c.seed = gen.gen_tick_rearm(seed * 1000 + k), "tick_rearm", ("loop" if k % 2 else "dispatch"), seed * 1000 + k
         cases.append(c)
 
+    for k in range(16 if tier == "quick" else 300):
+        c = cc.Case()
+        c.sc, c.profile, c.mode, c.seed = gen.gen_paused_subscriber(seed * 1000 + k), "paused_subscriber", "dispatch", seed * 1000 + k
+        cases.append(c)
+
     def oracle(case):
         return model_pubsub.check_c19(case, stats)
 
